@@ -67,14 +67,14 @@ var (
 	ProfC04 = &Profile{
 		Methods:  cat(rep(MExecute, 3), []int{MSelected}, rep(MSelectedCtl, 2)),
 		MinRules: 1, MaxRules: 8, SalSpan: 3,
-		Secs:    map[int]int{SecY: 2, SecCall: 3, SecAsgCall: 2, SecDiv: 1, SecIfKind: 1, SecNil: 1, SecConc: 1, SecIfIdx: 1},
+		Secs:    map[int]int{SecY: 2, SecCall: 3, SecAsgCall: 2, SecDiv: 1, SecIfKind: 1, SecNil: 1, SecConc: 1, SecIfIdx: 1, SecElifCall: 1},
 		MaxSecs: 3, Rets: []int{RetNone, RetNone, RetNone, RetNestedV, RetNestedV, RetTopKind, RetKind, RetUnexp},
 		FaultPct: 60, GatePct: 10, RetPct: 50, MinCalls: 6, MaxCalls: 20, UnknownNamePct: 30, EvolvePct: 40,
 	}
 	ProfC05 = &Profile{
 		Methods:  stagedMethods,
 		MinRules: 1, MaxRules: 8, SalSpan: 2,
-		Secs:    map[int]int{SecY: 5, SecCall: 2, SecAsgCall: 1, SecDiv: 1, SecIfKind: 1, SecNil: 1, SecConc: 1, SecIfIdx: 1},
+		Secs:    map[int]int{SecY: 5, SecCall: 2, SecAsgCall: 1, SecDiv: 1, SecIfKind: 1, SecNil: 1, SecConc: 1, SecIfIdx: 1, SecElifCall: 1},
 		MaxSecs: 4, Rets: []int{RetNone, RetNone, RetNone, RetNestedV, RetNestedV, RetTopKind, RetKind, RetUnexp},
 		FaultPct: 50, GatePct: 55, RetPct: 50, MinCalls: 6, MaxCalls: 20, UnknownNamePct: 8, BadNMPct: 5, EvolvePct: 25,
 	}
@@ -82,7 +82,7 @@ var (
 		Methods:  allEngineMethods,
 		MinRules: 1, MaxRules: 6, SalSpan: 2,
 		Secs: map[int]int{SecY: 2, SecCall: 2, SecAsgCall: 1, SecAsgKind: 2, SecDiv: 2, SecIdx: 2, SecNil: 2, SecUnknown: 2, SecArg: 2,
-			SecIfKind: 2, SecIfIdx: 2, SecIfNil: 2, SecElif: 2, SecForKind: 2, SecForStep: 1, SecUnb: 1, SecUnbCont: 1, SecConc: 2, SecIfCall: 2, SecForRange: 2, SecMapIdx: 2, SecSetKind: 2, SecSetNil: 2, SecThreeNil: 2, SecIfThreeNil: 2, SecArgCount: 1, SecNilMapSet: 2, SecFuncCall: 2, SecIfFunc: 2, SecThreeSet: 2, SecFnArgKind: 2, SecFnArgCount: 1, SecLocStruct: 1},
+			SecIfKind: 2, SecIfIdx: 2, SecIfNil: 2, SecElif: 2, SecForKind: 2, SecForStep: 1, SecUnb: 1, SecUnbCont: 1, SecConc: 2, SecIfCall: 2, SecForRange: 2, SecMapIdx: 2, SecSetKind: 2, SecSetNil: 2, SecThreeNil: 2, SecIfThreeNil: 2, SecArgCount: 1, SecNilMapSet: 2, SecFuncCall: 2, SecIfFunc: 2, SecThreeSet: 2, SecFnArgKind: 2, SecFnArgCount: 1, SecLocStruct: 1, SecElifCall: 2, SecForAcc: 1},
 		MaxSecs: 4, Rets: []int{RetNone, RetNestedV, RetKind, RetTopKind, RetTop, RetUnexp},
 		FaultPct: 75, GatePct: 10, RetPct: 50, MinCalls: 4, MaxCalls: 12, UnknownNamePct: 15, BadNMPct: 15, LongHistPct: 3,
 	}
@@ -103,7 +103,7 @@ var (
 	ProfC13 = &Profile{
 		Methods:  []int{MDAG},
 		MinRules: 1, MaxRules: 6, SalSpan: 2,
-		Secs:    map[int]int{SecY: 4, SecCall: 2, SecDiv: 1, SecIfKind: 1, SecNil: 1, SecIfIdx: 2, SecFnArgKind: 1},
+		Secs:    map[int]int{SecY: 4, SecCall: 2, SecDiv: 1, SecIfKind: 1, SecNil: 1, SecIfIdx: 2, SecFnArgKind: 1, SecElifCall: 2},
 		MaxSecs: 3, Rets: []int{RetNone, RetNone, RetNestedV, RetTop, RetTopKind, RetKind, RetUnexp},
 		FaultPct: 50, GatePct: 55, RetPct: 50, MinCalls: 4, MaxCalls: 14, UnknownNamePct: 40, EvolvePct: 20,
 	}
@@ -112,12 +112,12 @@ var (
 		MinRules: 1, MaxRules: 7, SalSpan: 2,
 		Secs:    map[int]int{SecY: 2, SecCall: 2, SecStop: 4, SecDiv: 1, SecIfKind: 1, SecIfIdx: 1},
 		MaxSecs: 3, Rets: []int{RetNone, RetNone, RetNone, RetNestedV, RetNestedV, RetTopKind, RetKind, RetUnexp},
-		FaultPct: 45, GatePct: 20, RetPct: 50, StopPct: 30, MinCalls: 6, MaxCalls: 20, UnknownNamePct: 20, EvolvePct: 15, TwinUntagged: true,
+		FaultPct: 45, GatePct: 20, RetPct: 50, StopPct: 30, MinCalls: 6, MaxCalls: 20, UnknownNamePct: 20, EvolvePct: 15, TwinUntagged: true, PresetTagPct: 20,
 	}
 	ProfC15 = &Profile{
 		Methods:  cat(allEngineMethods, rep(MDAG, 3), rep(MConcurrent, 2)),
 		MinRules: 2, MaxRules: 6, SalSpan: 2,
-		Secs:    map[int]int{SecY: 3, SecLocal: 5, SecReader: 2, SecCall: 1, SecIfKind: 1, SecIfIdx: 1, SecForKind: 1, SecAsgKind: 1, SecShW: 2, SecShR: 2, SecRangeKey: 3, SecLocObj: 3, SecLocObjReader: 1, SecLocAlias: 3, SecOptName: 3, SecLocStruct: 2, SecConc: 2},
+		Secs:    map[int]int{SecY: 3, SecLocal: 5, SecReader: 2, SecCall: 1, SecIfKind: 1, SecIfIdx: 1, SecForKind: 1, SecAsgKind: 1, SecShW: 2, SecShR: 2, SecRangeKey: 3, SecLocObj: 3, SecLocObjReader: 1, SecLocAlias: 3, SecOptName: 3, SecLocStruct: 2, SecConc: 2, SecForAcc: 3},
 		MaxSecs: 3, Rets: []int{RetNone, RetNestedV},
 		FaultPct: 40, GatePct: 30, RetPct: 50, MinCalls: 4, MaxCalls: 14, UnknownNamePct: 10, BadNMPct: 5,
 	}
@@ -141,7 +141,7 @@ var (
 	}
 	ProfC06 = &Profile{
 		MinRules: 1, MaxRules: 4, SalSpan: 1,
-		Secs:    map[int]int{SecY: 4, SecEcho: 4, SecOpt: 3, SecCall: 1, SecLocal: 2, SecReader: 1, SecIfNil: 1, SecIfKind: 1, SecFnArgKind: 1},
+		Secs:    map[int]int{SecY: 4, SecEcho: 4, SecOpt: 3, SecCall: 1, SecLocal: 2, SecReader: 1, SecIfNil: 1, SecIfKind: 1, SecFnArgKind: 1, SecApiSet: 2, SecForAcc: 1},
 		MaxSecs: 4, Rets: []int{RetNone, RetReq, RetReq, RetNestedV},
 		FaultPct: 20, GatePct: 60, RetPct: 70, UnknownNamePct: 10, BadNMPct: 5,
 	}
